@@ -514,6 +514,7 @@ func linearizabilityHistory(run *evid.Run, idx int, overlaps map[string]int) {
 	reg := ocimem.NewWithConfig(&ocimem.Config{ImmutableTags: immutable})
 	env := model.NewEnv(reg)
 	env.NoWSize = true
+	env.Scribble = true // every buffer handed to a push or a write is the caller's again afterwards, and gets reused
 	t0 := time.Now()
 	var mu sync.Mutex
 	var hist []hop
